@@ -3002,6 +3002,20 @@ func (db *DB) snapshotReader(ctx context.Context, pos *snapshotReadPosition) (io
 			return
 		}
 
+		// The read lock does not stop a writer from restarting a fully
+		// checkpointed WAL, which overwrites the frames the page map points
+		// at. If the WAL header changed while the pages were being read,
+		// some of them may come from the new WAL: fail the snapshot.
+		if len(pageMap) > 0 {
+			if hdr, err := readWALHeader(db.WALPath()); err != nil {
+				pw.CloseWithError(fmt.Errorf("re-read wal header: %w", err))
+				return
+			} else if binary.BigEndian.Uint32(hdr[16:]) != rd.salt1 || binary.BigEndian.Uint32(hdr[20:]) != rd.salt2 {
+				pw.CloseWithError(fmt.Errorf("wal restarted during snapshot"))
+				return
+			}
+		}
+
 		if err := enc.Close(); err != nil {
 			pw.CloseWithError(fmt.Errorf("close ltx snapshot encoder: %w", err))
 			return
